@@ -73,6 +73,7 @@ type ecaseJ struct {
 	Exchs    []exchJ //
 	Pipeline bool    // the client writes all requests before it reads the first response
 	Handler  bool    // through the http.Handler variant of the proxy (oracle only, the model is of the connection handler)
+	AttachRT bool    // the proxy's RoundTripper is wrapped: replies carrying X-Attach-Body get a body attached (header-only replies with an unexpected body)
 }
 
 // ---------------------------------------------------------------- origin
@@ -239,7 +240,19 @@ type proxyRig struct {
 	stop  context.CancelFunc
 }
 
-func newProxyRig(handler bool) *proxyRig {
+// attachRT hands the proxy a response whose Body is not http.NoBody although the reply must not have one
+// (what a RoundTripper other than http.Transport may do).
+type attachRT struct{ base http.RoundTripper }
+
+func (a attachRT) RoundTrip(req *http.Request) (*http.Response, error) {
+	res, err := a.base.RoundTrip(req)
+	if err == nil && res.Header.Get("X-Attach-Body") != "" {
+		res.Body = io.NopCloser(strings.NewReader("unexpected body"))
+	}
+	return res, err
+}
+
+func newProxyRig(handler bool, attach ...bool) *proxyRig {
 	rig := &proxyRig{snaps: map[string]snapshot{}}
 	cfg := forwarder.DefaultHTTPProxyConfig()
 	cfg.TestingHTTPHandler = handler
@@ -265,7 +278,11 @@ func newProxyRig(handler bool) *proxyRig {
 	if err != nil {
 		panic(err)
 	}
-	hp, err := forwarder.NewHTTPProxy(cfg, nil, nil, tr, log.NopLogger, nil)
+	var rt http.RoundTripper = tr
+	if len(attach) > 0 && attach[0] {
+		rt = attachRT{tr}
+	}
+	hp, err := forwarder.NewHTTPProxy(cfg, nil, nil, rt, log.NopLogger, nil)
 	if err != nil {
 		panic(err)
 	}
@@ -544,6 +561,8 @@ var e2eReasons = []string{"OK", "OK", "Custom Reason", "Fine  Thanks", "Not Foun
 var e2eHdrs = []hfield{{"Content-Type", "text/plain"}, {"Content-Type", "text/event-stream"}, {"X-A", "1"}, {"X-A", "2"}, {"x-lower", "v"},
 	{"Set-Cookie", "a=1"}, {"Set-Cookie", "b=2"}, {"Cache-Control", "no-cache"}, {"Etag", "\"x\""}, {"X-Empty", ""},
 	{"Vary", "Accept-Encoding"}, {"Keep-Alive", "timeout=5"}, {"Connection", "X-Hop"}, {"X-Hop", "h"}, {"Proxy-Authenticate", "Basic realm=o"},
+	{"Connection", "keep-alive, X-Hop"}, {"Connection", "X-Hop,x-hop2"}, {"Connection", "X-Other-Hop ,\tX-HOP"}, {"X-Hop2", "h2"}, {"X-Other-Hop", "oh"},
+	{"X-Hop", "again"}, {"X-Hop2", "h2"}, {"X-Other-Hop", "oh"},
 	{"Www-Authenticate", "Basic realm=o"}, {"X-Long", strings.Repeat("v", 300)}}
 
 func genBody(r *rng.R) string {
@@ -723,6 +742,16 @@ func corpus() []ecaseJ {
 		{Class: "gzip-solicited-by-client", Exchs: []exchJ{{xreq{Method: "GET", Proto: "HTTP/1.1", AcceptE: "gzip"}, gz}, {get("HTTP/1.1"), plain}}},
 		{Class: "http10-client-chunked-origin", Exchs: []exchJ{{h10, ch}, {h10, plain}}},
 		{Class: "http10-client-chunked-origin", Exchs: []exchJ{{h10c, ch}}},
+		{Class: "header-only-reply-with-unexpected-body", AttachRT: true, Exchs: []exchJ{
+			{get("HTTP/1.1"), oresp{Proto: "HTTP/1.1", Code: 304, Reason: "Not Modified", Fields: []hfield{{"X-Attach-Body", "1"}, {"Etag", "\"x\""}}, Framing: "none", HeadCL: -1, KeepOpen: true}},
+			{xreq{Method: "HEAD", Proto: "HTTP/1.1"}, oresp{Proto: "HTTP/1.1", Code: 200, Reason: "OK", Fields: []hfield{{"X-Attach-Body", "1"}}, Framing: "none", HeadCL: 5, KeepOpen: true}},
+			{get("HTTP/1.1"), oresp{Proto: "HTTP/1.1", Code: 204, Reason: "No Content", Fields: []hfield{{"X-Attach-Body", "1"}}, Framing: "none", HeadCL: -1, KeepOpen: true}},
+			{get("HTTP/1.1"), plain}}},
+		{Class: "connection-nominates-several-fields", Exchs: []exchJ{
+			{get("HTTP/1.1"), oresp{Proto: "HTTP/1.1", Code: 200, Reason: "OK", Fields: []hfield{{"Connection", "keep-alive, X-Session-Hop"}, {"X-Session-Hop", "s"}, {"X-Keep", "k"}},
+				Framing: "cl", Body: "ok", HeadCL: -1, KeepOpen: true}},
+			{xreq{Method: "HEAD", Proto: "HTTP/1.1"}, oresp{Proto: "HTTP/1.1", Code: 200, Reason: "OK", Fields: []hfield{{"Connection", "X-A-Hop,x-b-hop ,\tX-C-HOP"}, {"X-A-Hop", "a"}, {"X-B-Hop", "b"}, {"X-C-Hop", "c"}, {"X-Keep", "k"}},
+				Framing: "none", HeadCL: 2, KeepOpen: true}}}},
 		{Class: "chunked-with-trailers", Exchs: []exchJ{{get("HTTP/1.1"), chTr}, {get("HTTP/1.1"), plain}, {xreq{Method: "HEAD", Proto: "HTTP/1.1"}, plain}, {get("HTTP/1.1"), ch}}},
 	}
 }
@@ -802,8 +831,27 @@ func expected(x exchJ, sawGzip bool, relax304 bool) string {
 			tparts = append(tparts, "("+coqfmt.Str(k)+", "+coqfmt.StrList(tw[k])+")")
 		}
 	}
-	return fmt.Sprintf("{| x_code := %d; x_fields := %s; x_body := %s; x_trailers := %s |}", o.Code,
-		coqfmt.List("(list N * list (list N))", fparts), cstr(body), coqfmt.List("(list N * list (list N))", tparts))
+	// hop-by-hop fields that must not reach the client: the RFC's own (except those the proxy
+	// legitimately writes itself for framing: Connection, Transfer-Encoding, Trailer) and every
+	// field the origin's Connection field nominates
+	absent := map[string]bool{"keep-alive": true, "proxy-connection": true, "proxy-authorization": true, "proxy-authenticate": true, "te": true, "upgrade": true}
+	for _, f := range o.Fields {
+		if strings.EqualFold(f.K, "Connection") {
+			for _, t := range strings.Split(f.V, ",") {
+				n := strings.ToLower(strings.Trim(t, " \t"))
+				if n != "" && n != "close" && n != "keep-alive" && !hopNames[n] {
+					absent[n] = true
+				}
+			}
+		}
+	}
+	var anames []string
+	for n := range absent {
+		anames = append(anames, n)
+	}
+	sort.Strings(anames)
+	return fmt.Sprintf("{| x_code := %d; x_fields := %s; x_absent := %s; x_body := %s; x_trailers := %s |}", o.Code,
+		coqfmt.List("(list N * list (list N))", fparts), coqfmt.StrList(anames), cstr(body), coqfmt.List("(list N * list (list N))", tparts))
 }
 
 func reqClose(x xreq) bool {
@@ -878,12 +926,13 @@ func runCases(cases []ecaseJ, wait time.Duration) (rendered []string, outs []any
 	relaxedRendered = make([]string, len(cases))
 	org := newOrigin()
 	defer org.l.Close()
-	rigs := map[bool]*proxyRig{false: newProxyRig(false)}
-	defer rigs[false].stop()
+	type rigKey struct{ handler, attach bool }
+	rigs := map[rigKey]*proxyRig{}
 	for _, c := range cases {
-		if c.Handler && rigs[true] == nil {
-			rigs[true] = newProxyRig(true)
-			defer rigs[true].stop()
+		k := rigKey{c.Handler, c.AttachRT}
+		if rigs[k] == nil {
+			rigs[k] = newProxyRig(c.Handler, c.AttachRT)
+			defer rigs[k].stop()
 		}
 	}
 	origin := org.l.Addr().String()
@@ -908,7 +957,7 @@ func runCases(cases []ecaseJ, wait time.Duration) (rendered []string, outs []any
 				org.scripts[paths[i]] = &r
 			}
 			org.mu.Unlock()
-			rig := rigs[c.Handler]
+			rig := rigs[rigKey{c.Handler, c.AttachRT}]
 			res := runConn(rig.addr, origin, paths, c, wait)
 			snaps := make([]snapshot, len(paths))
 			sawAE := make([]string, len(paths))
